@@ -350,6 +350,58 @@ func TestVerifC05CLI(t *testing.T) {
 			}
 		}
 	}
+	// a TREE indexed in one run in which two packages declare functions of the same name (every
+	// command has a main, tools share helper names): each of them is found again
+	if sh, n := vh.Shard(); sh == 1%n {
+		d := filepath.Join(scratch, "cli-same-names")
+		srcs := map[string]string{
+			"beacon/main.go":  "package main\n\nimport \"os\"\n\nfunc run(a int) int {\n\tt := 0\n\tfor i := 0; i < a; i++ {\n\t\tt += i * len(os.Args)\n\t}\n\treturn t\n}\n\nfunc main() { _ = run(3) }\n",
+			"dropper/main.go": "package main\n\nimport \"strings\"\n\nfunc run(x, y string) string {\n\tif strings.HasPrefix(x, y) {\n\t\treturn strings.ToUpper(x)\n\t}\n\treturn y + x\n}\n\nfunc main() {\n\tif run(\"a\", \"b\") == \"\" {\n\t\tpanic(\"x\")\n\t}\n}\n",
+		}
+		for rel, c := range srcs {
+			os.MkdirAll(filepath.Dir(filepath.Join(d, "tree", rel)), 0o755)
+			os.WriteFile(filepath.Join(d, "tree", rel), []byte(c), 0o644)
+		}
+		for _, ext := range []string{".db", ".json"} {
+			db := filepath.Join(d, "sigs"+ext)
+			if out, err := exec.Command(sfw, "index", "--name", "FAM", "--db", db, filepath.Join(d, "tree")).CombinedOutput(); err != nil {
+				r.Fail("sfw index (tree with same-named functions): %v\n%s", err, out)
+				return
+			}
+			for _, rel := range []string{"beacon/main.go", "dropper/main.go"} {
+				for _, mode := range [][]string{{"--threshold", "1.0"}, {"--exact"}} {
+					args := append(append([]string{"scan", "--no-sandbox", "--db", db}, mode...), filepath.Join(d, "tree", rel))
+					cmd := exec.Command(sfw, args...)
+					var stdout strings.Builder
+					cmd.Stdout = &stdout
+					rerr := cmd.Run()
+					r.Eval()
+					key := fmt.Sprintf("cli/same-names/%s/%s/%s", ext, rel, strings.Join(mode, ""))
+					var so struct {
+						Alerts []detection.ScanResult `json:"alerts"`
+					}
+					if jerr := json.Unmarshal([]byte(stdout.String()), &so); jerr != nil {
+						r.Violate(key+"/scan-failed", fmt.Sprintf("sfw %v produced no report (exit: %v)", args, rerr), nil)
+						continue
+					}
+					r.Nontrivial(key)
+					for _, fn := range []string{"run", "main"} {
+						found := false
+						var seen []string
+						for _, al := range so.Alerts {
+							seen = append(seen, fmt.Sprintf("%s/%s/%v", al.MatchedFunction, al.SignatureName, al.Confidence))
+							if al.MatchedFunction == fn && al.SignatureName == "FAM_"+fn && al.Confidence == 1.0 {
+								found = true
+							}
+						}
+						if !found {
+							r.Violate(key+"/"+fn, fmt.Sprintf("a tree with beacon/main.go and dropper/main.go (each declares run and main) indexed in one run; scanning %s with %v on the %s back end raises no alert FAM_%s with confidence 1.0 for function %s; alerts: %v", rel, mode, ext, fn, fn, seen), nil)
+						}
+					}
+				}
+			}
+		}
+	}
 	bases := progfam.Bases()
 	pick := map[string]bool{"upcount": true, "strings": true, "crosspkg": true, "deferrecover": true, "panic": true, "nestedloops": true, "switch": true, "bigconst": true}
 	idx := 0
